@@ -48,7 +48,8 @@ META = {
         "under which the docutils create_myst_config reads a config field back from the settings object (`myst_<field>`: a "
         "reused settings object would turn one document's file-level value into the next document's global config); write to a fresh "
         "copy / object under construction; function outside the reach of every parse entry. The docutils front end must remove "
-        "roles._roles[''] after the render as its sibling docutils.parsers.rst.Parser.parse does. R2: save/restore pairs in "
+        "roles._roles[''] as its sibling docutils.parsers.rst.Parser.parse does - unconditionally in the finally of a try around "
+        "the render, so that a render halted by an exception does not skip it. R2: save/restore pairs in "
         "finally blocks - the saved name is read from the restored place before the try (or under the same conditions as the "
         "restore), is a copy when the place is mutated in place, shared state is not changed before the try is entered, undo "
         "operations match their forward operation. R3: lru_cache functions are pure functions of immutable scalars and return an immutable value - not a list/dict, not an "
@@ -72,6 +73,9 @@ META = {
         "copy still exposes the shared dict/list objects to mutating template expressions); this holds item by item too (self.ctx[k] = copy(v) copies one level only and is reported); a by-reference fallback in the "
         "handler of a failed deepcopy is accepted as best effort. R5 has no tabled exception any more (the lazily filled "
         "_inventories cache must be reset per render too). "
+        "R14 also reports the Sphinx env object itself in a template context (known finding). R15: a container found "
+        "below app.config (the user's conf.py objects) is written only after it was replaced by a new object on every path. "
+        "Freshness of a stored value is decided flow-sensitively for re-bound names (value = set(value)). "
         "R1 also judges method calls on a module-/class-level instance of a package class whose method keeps state (writes "
         "self, mutates a member, calls into an external base class), and reads the library source of an external function "
         "that is handed the Sphinx env to see that it only uses tabled env methods."
@@ -80,7 +84,9 @@ META = {
         "equality of outputs under all histories/schedules as values; state kept inside third-party directives/roles, docutils "
         "and Sphinx domains (one foreign write is covered: the default role set by docutils' default-role directive), Jinja "
         "templates handed `env`; aliasing of shared objects through anything but constant-key subscript slots (R10 is field-"
-        "based, not a full heap analysis); immutability of config values is taken from field annotations only"
+        "based, not a full heap analysis); immutability of config values is taken from field annotations only; the run-time type of "
+        "values loaded from YAML front matter: a `!!set` arrives as a Python set and is formatted by str()/repr()/json/Jinja in "
+        "hash order (known, not repaired [hunt2 out-c15/1]) - R13 only sees sets whose construction is visible in the source"
     ),
     "trusted_base": [
         "CPython ast",
@@ -2272,13 +2278,40 @@ def _default_role_reset(corpus: Corpus, ef: Effects, rep: Report) -> None:
             return True
         return False
 
+    def unconditional_in(n: ast.AST, block_owner: ast.AST, block: list) -> bool:
+        """``n`` is a statement of ``block`` itself, or sits only under `if ... _roles ...` idempotence tests inside it."""
+        child = n
+        for a_ in ancestors(n):
+            if a_ is block_owner:
+                return any(child is s_ for s_ in block)
+            if isinstance(a_, ast.If) and "_roles" in unparse(a_.test) and not (isinstance(a_.test, ast.Name)):
+                child = a_
+                continue
+            if isinstance(a_, (ast.stmt, ast.ExceptHandler)) and not isinstance(child, ast.stmt):
+                child = a_
+                continue
+            if isinstance(a_, ast.stmt):
+                return False
+            child = a_
+        return False
+
     def runs_whenever(n: ast.AST, f: FunctionInfo, anchor) -> bool:
-        """``n`` is in a finally, or executes on every normal path after ``anchor`` (modulo an `if '' in roles._roles` guard)."""
+        """In the parse method (anchor = the render statement): ``n`` sits, unconditionally, in the `finally` of a try whose
+        body holds the render - a render halted by a SEVERE system message or any other exception must not skip the reset.
+        In a helper (anchor = ENTRY): ``n`` executes on every normal path (modulo an `if '' in roles._roles` guard)."""
         c_ = get_cfg(f)
         st_ = c_.stmt_of(n)
-        if _in_finally(n) is not None or c_.postdominates(st_, anchor):
-            return True
-        return any(c_.postdominates(g_, anchor) for g_ in c_.dom().get(st_, set()) if isinstance(g_, ast.If) and "_roles" in unparse(g_.test))
+        if anchor == "ENTRY":
+            if c_.postdominates(st_, anchor):
+                return True
+            return any(c_.postdominates(g_, anchor) for g_ in c_.dom().get(st_, set()) if isinstance(g_, ast.If) and "_roles" in unparse(g_.test))
+        tr_ = _in_finally(n)
+        while tr_ is not None:
+            covers = any(anchor is b_ or any(anchor is x for x in ast.walk(b_)) for b_ in tr_.body)
+            if covers and unconditional_in(st_, tr_, tr_.finalbody):
+                return True
+            tr_ = _in_finally(tr_)
+        return False
 
     good = []
     for n in walk_local(fi.node, into_lambdas=False):
@@ -2298,7 +2331,8 @@ def _default_role_reset(corpus: Corpus, ef: Effects, rep: Report) -> None:
             "C15.R1",
             k,
             fi.module.site(rcs[0]),
-            "docutils' `default-role` directive (run through run_directive) stores roles._roles['']; docutils' own rST Parser.parse deletes that entry after every parse "
+            "docutils' `default-role` directive (run through run_directive) stores roles._roles['']; the reset must sit, unconditionally, in the `finally` of a try around the render "
+            "(a render halted by a SEVERE system message or any other exception must not skip it). docutils' own rST Parser.parse deletes that entry after every parse "
             f"({sib.rel}:{sib_resets[0].lineno}) and Sphinx unregisters it around every read, but the MyST docutils Parser.parse never does: the default role chosen in one document "
             "is still active for `eval-rst` content of every later document parsed in the process (MockRSTParser even restores the leaked value)",
         )
@@ -2321,6 +2355,51 @@ def _field_validators(corpus: Corpus) -> dict[str, list[ast.expr]]:
                         if isinstance(k_, ast.Constant) and k_.value == "validator":
                             out[st.target.id] = list(v_.elts) if isinstance(v_, (ast.List, ast.Tuple)) else [v_]
     return out
+
+
+def _reaching_def_value(fi: FunctionInfo, v: ast.expr, at: ast.AST) -> ast.expr:
+    """Flow-sensitive refinement for a plain name: when one assignment `name = EXPR` dominates the use and every other
+    assignment to the name comes textually before it (a re-bound parameter: `value = set(value)`), the use sees EXPR."""
+    if not isinstance(v, ast.Name) or fi.is_lambda:
+        return v
+    try:
+        cfg = get_cfg(fi)
+        use = cfg.stmt_of(at)
+    except Exception:
+        return v
+    defs = [d for d in _name_defs(fi, v.id) if isinstance(d, (ast.Assign, ast.AnnAssign)) and getattr(d, "value", None) is not None]
+    alld = _name_defs(fi, v.id)
+    if not defs or len(defs) != len(alld):
+        return v
+    dom = [d for d in defs if d is not use and cfg.dominates(cfg.stmt_of(d), use) and d.lineno < use.lineno]
+    if not dom:
+        return v
+    last = max(dom, key=lambda d: d.lineno)
+    if any(d.lineno > last.lineno for d in defs if d is not last):
+        return v
+    if cfg.loops.get(last) is not None or cfg.loops.get(use) is not None:
+        return v
+    tg = last.targets[0] if isinstance(last, ast.Assign) and len(last.targets) == 1 else getattr(last, "target", None)
+    if not isinstance(tg, ast.Name):
+        return v
+    return last.value
+
+
+def _fresh_at(ef: Effects, fi: FunctionInfo, v: ast.expr, at: ast.AST, depth: int = 0) -> bool:
+    """``v`` evaluated at statement ``at`` is a newly built object on every path (names are resolved flow-sensitively)."""
+    if depth > 4:
+        return False
+    if isinstance(v, ast.Name):
+        rv = _reaching_def_value(fi, v, at)
+        if rv is not v:
+            d_at = next((d for d in _name_defs(fi, v.id) if getattr(d, "value", None) is rv), at)
+            return _fresh_at(ef, fi, rv, d_at, depth + 1)
+    if isinstance(v, ast.IfExp):
+        return _fresh_at(ef, fi, v.body, at, depth + 1) and _fresh_at(ef, fi, v.orelse, at, depth + 1)
+    if isinstance(v, ast.BoolOp):
+        return all(_fresh_at(ef, fi, x, at, depth + 1) for x in v.values)
+    roots_ = ef.classify(v, fi)
+    return bool(roots_) and all(r.kind == "FRESH" for r in roots_)
 
 
 def _shallow_config_copies(ef: Effects) -> list[ast.Call]:
@@ -2401,8 +2480,7 @@ def r8_field_ownership(corpus: Corpus, rep: Report, tier: str):
                     stores_.append((c2, c2.value))
             for c2, val_ in stores_:
                 if True:
-                    roots_ = ef.classify(val_, fn)
-                    fresh = bool(roots_) and all(r.kind == "FRESH" for r in roots_)
+                    fresh = _fresh_at(ef, fn, val_, c2)
                     uncond = cfg.postdominates(cfg.stmt_of(c2), "ENTRY")
                     if fresh and uncond:
                         owned = fn
@@ -2726,6 +2804,10 @@ def _is_set_expr(ef: Effects, e: ast.expr, fi: FunctionInfo, depth: int = 0) -> 
         f, binds = ef.lookup(e.id, fi)
         if not binds:
             return False
+        if f is fi and hasattr(e, "lineno"):
+            rv = _reaching_def_value(fi, e, e)
+            if rv is not e:
+                return _is_set_expr(ef, rv, fi, depth + 1)
         vals = []
         for kind, v, p_ in binds:
             if kind == "param":
@@ -2926,6 +3008,26 @@ def r14_template_context(corpus: Corpus, rep: Report, tier: str):
             held = []
             for a in list(call.args) + [kw.value for kw in call.keywords]:
                 held += _content_roots(ef, a, fi)
+            # the Sphinx env itself in the context: everything shared is reachable from it
+            env_in_ctx = None
+            for a in list(call.args) + [kw.value for kw in call.keywords]:
+                if isinstance(a, ast.Name):
+                    f_, _b = ef.lookup(a.id, fi)
+                    for n_ in walk_local((f_ or fi).node, into_lambdas=False):
+                        if isinstance(n_, ast.Assign) and len(n_.targets) == 1 and isinstance(n_.targets[0], ast.Subscript) and isinstance(n_.targets[0].value, ast.Name) and n_.targets[0].value.id == a.id:
+                            if any(r.kind == "ENV" and r.obj for r in ef.classify(n_.value, f_ or fi)):
+                                env_in_ctx = n_
+                elif any(r.kind == "ENV" and r.obj for r in ef.classify(a, fi)):
+                    env_in_ctx = a
+            if env_in_ctx is not None:
+                rep.violation(
+                    "C15.R14",
+                    f"{fi.fq}|template context holds the Sphinx env",
+                    fi.module.site(env_in_ctx),
+                    f"`{short(env_in_ctx, 60)}` puts the Sphinx BuildEnvironment itself into the template context: an expression can reach every shared mutable object through it "
+                    "(env.myst_config.substitutions, env.config.*, env.app ...) and the sandbox permits list.append/dict.update on them, so a document can change what later documents of the same process see "
+                    "(serial and parallel reads differ)",
+                )
             if not held:
                 rep.ok("C15.R14", k, site, "nothing that the configuration (or a global) owns is reachable from the context by reference")
                 continue
@@ -2955,6 +3057,60 @@ def r14_template_context(corpus: Corpus, rep: Report, tier: str):
                 rep.assumed("C15.R14", k, site, "deep copy attempted first; only values that cannot be deep-copied stay shared (best effort, by-reference fallback in the except handler)")
     if n == 0:
         rep.ok("C15.R14", "no template is rendered in parse reach", "myst_parser", "nothing to judge")
+
+
+# ---------------------------------------------------------------------------
+# R15 containers taken from the user's Sphinx configuration are copied before they are written
+
+
+@rule("C15.R15")
+def r15_user_config_containers(corpus: Corpus, rep: Report, tier: str):
+    rep.rule("C15.R15", "a dict/list found below app.config (the user's conf.py objects, which may be shared by several builds in one process) is only written after it has been replaced by a copy on every path")
+    ef = _effects(corpus)
+    n = 0
+    for s in ef.sites():
+        if s.how.startswith(("envcall", "envarg", "instcall")) or s.fi.is_lambda:
+            continue
+        c = s.container
+        ctext = _ntext(c, s.fi)
+        # in-place writes: container is something *below* <app>.config.<name>
+        parts = ctext.split(".config.", 1)
+        if len(parts) != 2 or not parts[1]:
+            continue
+        base_expr = c
+        while isinstance(base_expr, (ast.Subscript, ast.Attribute, ast.Call)) and not (isinstance(base_expr, ast.Attribute) and base_expr.attr == "config"):
+            base_expr = base_expr.func if isinstance(base_expr, ast.Call) else base_expr.value
+        if not (isinstance(base_expr, ast.Attribute) and base_expr.attr == "config" and any(r.kind == "ENV" for r in ef.classify(base_expr.value, s.fi))):
+            continue
+        if s.how == "store" and s.written == ctext:
+            continue
+        if s.how in ("store", "aug", "del"):
+            tg = s.node.targets[0] if isinstance(s.node, (ast.Assign, ast.Delete)) else getattr(s.node, "target", None)
+            if not isinstance(tg, ast.Subscript):
+                continue  # app.config.x = ...  rebinding an attribute of the config object is not an in-place change of a user container
+        n += 1
+        k = f"{s.key}|{s.how}"
+        cfg = get_cfg(s.fi)
+        use = cfg.stmt_of(s.node)
+        fresh_store = None
+        for o in ef.sites():
+            if o.fi.fq != s.fi.fq or o.how != "store" or o.written != ctext or not isinstance(o.node, ast.Assign):
+                continue
+            ost = cfg.stmt_of(o.node)
+            if ost is not use and cfg.dominates(ost, use) and _fresh_at(ef, s.fi, o.node.value, o.node):
+                fresh_store = o
+        if fresh_store is not None:
+            rep.ok("C15.R15", k, s.site, f"`{ctext}` was replaced by a new object (`{short(fresh_store.node, 50)}`) on every path before it is written")
+        else:
+            rep.violation(
+                "C15.R15",
+                k,
+                s.site,
+                f"`{short(s.node, 60)}` writes into `{ctext}`, an object that comes from the user's configuration, without it having been replaced by a copy on every path before: "
+                "the user's dictionary is modified in place, and a later build in the same process (or anything else sharing the object) reads MyST's value back as if the user had set it",
+            )
+    if n == 0:
+        rep.ok("C15.R15", "no container below app.config is written in place", "myst_parser", "nothing to judge")
 
 # ---------------------------------------------------------------------------
 # R6 document-scoped state (evidence only)
@@ -3111,7 +3267,7 @@ def r2_pairing(corpus: Corpus, rep: Report, tier: str):
                                 rep.listed("C15.R2", k, fi.module.site(n), f"finally deletes `{txt}`; no store of it is visible in the try body - not judged")
     rep.expect_min("C15.R2", 6, "restore/undo statements in finally blocks (figure-md 1, include mock 7, substitution 1)")
 
-RULES = [r1_effect_classification, r2_pairing, r3_pure_caches, r4_freshness, r5_reset_completeness, r6_document_scoped, r7_nondeterminism, r8_field_ownership, r9_env_config_refreshed, r10_no_aliasing_into_mutated_slots, r11_lookup_messages, r12_no_once_emission, r13_set_order_not_in_text, r14_template_context]
+RULES = [r1_effect_classification, r2_pairing, r3_pure_caches, r4_freshness, r5_reset_completeness, r6_document_scoped, r7_nondeterminism, r8_field_ownership, r9_env_config_refreshed, r10_no_aliasing_into_mutated_slots, r11_lookup_messages, r12_no_once_emission, r13_set_order_not_in_text, r14_template_context, r15_user_config_containers]
 
 
 
@@ -3302,9 +3458,18 @@ def mutants(corpus: Corpus):
     if st is not None:
         ind = indent_of(f, st)
         add("c15-validator-copies-only-non-sets", "C15.R8", f, splice(cm.src, st, "if not isinstance(value, set):\n" + ind + "    " + _seg(f, st)), "enable_extensions")
-        add("c15-validator-stores-given-set", "C15.R8", f, splice(cm.src, st.value.args[2], "(value if isinstance(value, set) else set(value))"), "enable_extensions")
     else:
         out.append(("c15-validator-copies-only-non-sets", "setattr in check_extensions not found"))
+    # the value that is stored must be built anew whatever was passed in
+    mk = find_stmt(f, lambda n: isinstance(n, ast.Assign) and isinstance(n.targets[0], ast.Name) and isinstance(n.value, ast.Call) and dotted(n.value.func) in ("set", "frozenset"))
+    if mk is not None and st is not None and unparse(st.value.args[2]) == mk.targets[0].id:
+        nm = mk.targets[0].id
+        add("c15-validator-stores-given-set", "C15.R8", f, splice(cm.src, mk.value, f"({nm} if isinstance({nm}, set) else {_seg(f, mk.value)})"), "enable_extensions")
+        add("c15-validator-normalised-copy-not-stored", "C15.R8", f, splice(cm.src, mk.targets[0], "checked"), "enable_extensions")
+    elif st is not None and isinstance(st.value.args[2], ast.Call):
+        add("c15-validator-stores-given-set", "C15.R8", f, splice(cm.src, st.value.args[2], "(value if isinstance(value, set) else set(value))"), "enable_extensions")
+    else:
+        out.append(("c15-validator-stores-given-set", "fresh set construction in check_extensions not found"))
     f = corpus.func("sphinx_ext.directives:FigureMarkdown.run")
     addst = find_stmt(f, lambda n: isinstance(n, ast.Expr) and isinstance(n.value, ast.Call) and unparse(n.value.func).endswith("enable_extensions.add"))
     if addst is not None:
@@ -3400,8 +3565,15 @@ def mutants(corpus: Corpus):
     # --- round-5 classes ---------------------------------------------------------------------------------
     # R1: one stateful package object created at import time and used by every parse
     h2n = corpus.mod("mdit_to_docutils.html_to_nodes")
-    f = h2n.func("html_to_nodes")
-    c = find_node(f, lambda n: isinstance(n, ast.Call) and dotted(n.func) == "tokenize_html")
+    f, c = None, None
+    for cand in h2n.functions.values():
+        if not cand.is_lambda:
+            c = find_node(cand, lambda n: isinstance(n, ast.Call) and dotted(n.func) == "tokenize_html")
+            if c is not None:
+                f = cand
+                break
+    if f is None:
+        f = h2n.func("html_to_nodes")
     if c is not None:
         add("c15-module-level-html-tokenizer-shared", "C15.R1", f, splice(h2n.src, c, "_HTML_TOKENIZER.feed(" + ", ".join(_seg(f, a) for a in c.args) + ")") + "\n\nfrom myst_parser.parsers.parse_html import HtmlToAst\n\n_HTML_TOKENIZER = HtmlToAst()\n", "_HTML_TOKENIZER")
     else:
@@ -3500,4 +3672,30 @@ def mutants(corpus: Corpus):
         add("c15-substitution-values-taken-item-by-item-by-reference", "C15.R14", f, splice(base.src, tr, "self._substitutions = {}\n" + ind + "for key, value in self.md_config.substitutions.items():\n" + ind + "    self._substitutions[key] = value"), "render_substitution")
     else:
         out.append(("c15-substitution-values-copied-one-level-only", "try: deepcopy(...) in render_substitution not found"))
+    # --- round 14: obligations of the second-hunt repairs --------------------------------------------------
+    # 7852c2b: the default-role reset must also run when the render raises (finally around the render)
+    f = corpus.func("parsers.docutils_:Parser.parse")
+    tr = find_stmt(f, lambda n: isinstance(n, ast.Try) and n.finalbody and any("_roles" in unparse(x) for x in n.finalbody) and any("render" in unparse(b_) for b_ in n.body))
+    if tr is not None:
+        ind = indent_of(f, tr)
+        seq = ("\n" + ind).join(_seg(f, x) for x in tr.body + tr.finalbody)
+        add("c15-revert-7852c2b-default-role-reset-skipped-when-render-raises", "C15.R1", f, splice(f.module.src, tr, seq), "reset after render")
+        body = ("\n" + ind + "    ").join(_seg(f, x) for x in tr.body)
+        fin = ("\n" + ind + "    ").join(_seg(f, x) for x in tr.finalbody)
+        add("c15-default-role-reset-only-after-a-successful-render", "C15.R1", f, splice(f.module.src, tr, "try:\n" + ind + "    " + body + "\n" + ind + "except Exception:\n" + ind + "    raise\n" + ind + "else:\n" + ind + "    " + fin), "reset after render")
+    else:
+        out.append(("c15-revert-7852c2b-default-role-reset-skipped-when-render-raises", "try/finally with the roles reset around parser.render not found"))
+    # 03606c8: containers from the user's configuration are copied before MyST writes its values into them
+    mj = corpus.mod("sphinx_ext.mathjax")
+    f = mj.func("override_mathjax")
+    st = find_stmt(f, lambda n: isinstance(n, ast.Assign) and unparse(n.targets[0]).endswith("config.mathjax3_config") and isinstance(n.value, ast.Call) and dotted(n.value.func) == "dict")
+    if st is not None and st.value.args:
+        add("c15-revert-03606c8-user-mathjax-config-written-in-place", "C15.R15", f, splice(mj.src, st.value, _seg(f, st.value.args[0])), "mathjax3_config")
+    else:
+        out.append(("c15-revert-03606c8-user-mathjax-config-written-in-place", "app.config.mathjax3_config = dict(...) not found"))
+    st = find_stmt(f, lambda n: isinstance(n, ast.Assign) and isinstance(n.targets[0], ast.Subscript) and unparse(n.targets[0].value).endswith("config.mathjax3_config") and isinstance(n.value, ast.Call) and dotted(n.value.func) == "dict")
+    if st is not None:
+        add("c15-user-mathjax-options-dict-not-copied", "C15.R15", f, splice(mj.src, st, f"{unparse(st.targets[0].value)}.setdefault({unparse(st.targets[0].slice)}, {{}})"), "processHtmlClass")
+    else:
+        out.append(("c15-user-mathjax-options-dict-not-copied", "app.config.mathjax3_config['options'] = dict(...) not found"))
     return out
